@@ -3,7 +3,8 @@ from lib.engine import Check, Stream
 CHECK = Check(
     "C07",
     streams=[Stream("buffer", drv="c07", sub="c07",
-                    nontrivial=lambda tags, inp: "client" in tags or "reset" in tags or "reuse" in tags or "builtin" in tags,
+                    nontrivial=lambda tags, inp: ("client" in tags or "reset" in tags or "reuse" in tags or "builtin" in tags
+                                                  or "spare" in tags or "held" in tags),
                     descr="histories over one ByteBuffer")],
     rule=("histories over one buffer: exhaustive over an 18-operation alphabet (Bufferize, BufferizeString, "
           "Acquire/append/Release, AssignBuf to bytes and to string, generated TestObject CopyTo into a fresh destination and "
@@ -20,10 +21,21 @@ CHECK = Check(
           "last copy AND on its source, a map / strings CopyTo into the destination used before) x the three capacities, plus "
           "60 (quick) / 1500 (thorough) seeded random histories mixing random nested maps (depth <= 3), strings copies and "
           "client-owned source values with all other operations; thorough adds three more pasts and two operations after the "
-          "copy. Every source text and every copied text of a built-in CopyTo is a holder of its own (source, copy, ... in the "
+          "copy. SOURCES WITH SPARE CAPACITY, observed over their whole capacity: [a string of the client + a []byte that is "
+          "empty but allocated (cap 8) | filled below its capacity | filled and emptied by x = x[:0] | handed out by the buffer and "
+          "emptied | without spare capacity] + one of 9 copies OF THAT VERY VALUE (ByteBuffer.Bufferize; generated CopyTo of "
+          "TestHistory / TestObject / TestObject with two fields holding it / TestObject1 whose fields hold the observed values; "
+          "StringAnyMapInspector, StringsInspector to *[][]byte and to *[]string, StaticInspector CopyTo of a map / list / single "
+          "value holding them) + a second copy (the same one into the destination used before, or the other kind; thorough: each "
+          "of the 9) + one of 7 operations (append to the last copy, to the first copy, to the SOURCE inside its spare capacity, "
+          "unbuffered Assign on the copy and on the source, feed back, one more Bufferize) x capacities {0, roomy} (thorough: "
+          "three), plus 60 / 1500 seeded random histories mixing such sources (spare 0..8), x = x[:0] on any value and copies of "
+          "1-4 observed values through every inspector with all other operations. "
+          "Every source text and every copied text of a built-in CopyTo is a holder of its own (source, copy, ... in the "
           "order of the case text, independent of Go's map iteration order). After every step every live handed-out "
           "value is re-read and all address ranges (capacity included) are tested for overlap. Non-trivial = contains a client "
-          "mutation, a Reset, a destination used again or a built-in CopyTo / watched source; distinct = distinct input string."),
+          "mutation, a Reset, a destination used again, a built-in CopyTo / watched source, a value with spare capacity or a copy "
+          "of observed values; distinct = distinct input string."),
     assumptions=["append growth is an oracle: theorems quantify over every growth policy; the model run uses extra=0 and only "
                  "growth-independent observables are compared (buffer length, contents, overlap)",
                  "amd64; strings handed out are immutable",
@@ -41,10 +53,13 @@ MANIFEST = {
              "heap; the operations include CopyTo / buffered Assign into a destination that is not fresh, "
              "C07_used_destination_as_fresh; CopyTo of the built-in map[string]any and []string / [][]byte inspectors with every "
              "source text observed next to its copy, equal to the sequence of its Bufferize calls: "
-             "C07_builtin_copy_is_bufferize_sequence). C07_refuted_loose shows the pre-fix slicing violates it. The model is tied to /repo by running the extracted model "
-             "and the real ByteBuffer / AssignBuf / generated CopyTo / StringAnyMapInspector.CopyTo / StringsInspector.CopyTo on the same "
+             "C07_builtin_copy_is_bufferize_sequence; client-owned []byte sources with spare capacity - empty but allocated, or filled "
+             "below capacity - observed over their whole capacity in an array of their own, C07_source_extent_is_capacity / "
+             "C07_pairwise_disjoint; x = x[:0] on any value, C07_truncate_is_empty_refill; copies whose source fields are observed "
+             "values, through the generated, map, strings and static inspectors, C07_copy_of_observed_is_copy_of_content). C07_refuted_loose shows the pre-fix slicing violates it. The model is tied to /repo by running the extracted model "
+             "and the real ByteBuffer / AssignBuf / generated CopyTo / StringAnyMapInspector.CopyTo / StringsInspector.CopyTo / StaticInspector.CopyTo on the same "
              "histories."),
     "note": ("Trusted: Coq kernel, extraction (ExtrOcamlBasic+ExtrOcamlString), Go harness. Modelled not verified: buffer.go, bufferize.go, "
-             "the buffered branches of assign_builtin.go, the cpy statement pattern, cpy of stranymap.go and CopyTo of strings.go; Go's append growth is an oracle. No axioms."),
+             "the buffered branches of assign_builtin.go, the cpy statement pattern, cpy of stranymap.go, CopyTo of strings.go and the text cases of CopyTo of static.go; Go's append growth is an oracle. No axioms."),
     "technique": "Rocq invariant proof by induction over operation histories + extracted-model correspondence",
 }
